@@ -83,6 +83,11 @@ func runSolver(ctx context.Context, s solverSpec, timeoutS int, file string) sol
 
 // discharge runs the portfolio on one obligation.
 func discharge(o *Obligation, dir string, quickS, fullS int, agree bool) {
+	if o.Preset == "fail" {
+		o.Verdict = "unknown"
+		o.Solver = "generator"
+		return
+	}
 	if o.Verdict == "trivial" {
 		o.Verdict = "unsat"
 		o.Solver = "syntactic"
